@@ -5,6 +5,7 @@ import (
 	"io"
 	"io/fs"
 	realos "os"
+	"os/signal"
 	"sort"
 	"syscall"
 	"time"
@@ -36,8 +37,9 @@ type File struct {
 	rpos   int
 	fpos   *int // named pipe: delivery position shared by every open in this process
 	// sink
-	sink  []byte
-	limit int
+	sink    []byte
+	limit   int
+	sinkErr string
 	// directory listing position
 	dirpos int
 }
@@ -227,8 +229,23 @@ func (f *File) Write(p []byte) (int, error) {
 		if n < len(p) {
 			w.Stats.FaultsFired["sink_limit"]++
 			w.P.Fired = append(w.P.Fired, "sink_limit")
-			w.logOp("write", f.name, off, len(p), fmt.Sprintf("enospc after %d", n))
-			return n, perr("write", f.name, syscall.ENOSPC)
+			errno := syscall.ENOSPC
+			switch f.sinkErr {
+			case "eio":
+				errno = syscall.EIO
+			case "epipe":
+				errno = syscall.EPIPE
+				if !signal.Ignored(syscall.SIGPIPE) {
+					// nobody reads the pipe any more: SIGPIPE ends the process
+					w.Stats.FaultsFired["sigpipe"]++
+					w.logOp("write", f.name, off, len(p), fmt.Sprintf("SIGPIPE after %d", n))
+					w.P.Crashed = true
+					w.P.Signalled = "SIGPIPE"
+					panic(CrashSentinel{"sigpipe"})
+				}
+			}
+			w.logOp("write", f.name, off, len(p), fmt.Sprintf("%s after %d", errno.Error(), n))
+			return n, perr("write", f.name, errno)
 		}
 		w.logOp("write", f.name, off, len(p), fmt.Sprint(n))
 		return n, nil
